@@ -229,7 +229,20 @@ func genNearValue(t *rapid.T, d D) D {
 }
 
 func genOrderTriple(t *rapid.T) (D, D, D) {
-	switch ir(t, 0, 9, "tripleKind") {
+	switch ir(t, 0, 11, "tripleKind") {
+	case 10, 11:
+		// a short coefficient at a high exponent against what its scaled-up coefficient wraps to in one or two
+		// words (see genWrapAlias)
+		n := ir(t, 1, 19, "len")
+		x := DFin(genSign(t), genDigits(t, n), genExp(t))
+		if rapid.Bool().Draw(t, "anyCoef") {
+			x = genFiniteNZ(t)
+		}
+		y := genWrapAlias(t, x)
+		if rapid.Bool().Draw(t, "swap") {
+			return y, x, genWrapAlias(t, x)
+		}
+		return x, y, genNearValue(t, x)
 	case 0:
 		return genAny(t), genAny(t), genAny(t)
 	case 1:
